@@ -322,6 +322,12 @@ class World(object):
             mm.store(a[0].proj(('f', 0)), FALSE, g)
             return UNIT
         R('__canary_drop', canary_drop)
+        def despawned(mm, th, a, g):
+            # despawn_threads_if_overloaded returned: the scheduler must not own more live pool threads than its (current) maximum
+            mm.violate('pool-exceeds-max-after-despawn', And(g, Ugt(s.live_pool, s.current_max())))
+            s.gset('despawned', TRUE, g, FALSE)
+            return UNIT
+        R('__despawned', despawned)
         R('__drop_begin', lambda mm, th, a, g: (s.gset('dropbegin%d' % a[0].val, BV(mm.now), g, NONE_T), UNIT)[1])
         R('__drop_end', lambda mm, th, a, g: (s.gset('dropend%d' % a[0].val, BV(mm.now), g, NONE_T), UNIT)[1])
         def give(mm, th, a, g):
@@ -390,19 +396,29 @@ class World(object):
                 kind = op[0]
                 if kind in ('sync', 'desync', 'try_sync'):
                     q = op[1]; body = op[2] if len(op) > 2 else {}
-                    s.ops[opid] = dict(thread=name, tid=None, obj=q, kind=kind, idx=oi, opid=opid, tindex=ti, probe=bool(body.get('probe')), must_panic=bool(body.get('must_panic')), panics=('panic' in body.get('acts', []) or body.get('fut') in ('panic', 'wake_panic')), gated=any(isinstance(x, tuple) and x[0] == 'gate' for x in body.get('acts', [])))
+                    s.ops[opid] = dict(thread=name, tid=None, obj=q, kind=kind, idx=oi, opid=opid, tindex=ti, probe=bool(body.get('probe')), must_panic=bool(body.get('must_panic')), panics=('panic' in body.get('acts', []) or body.get('fut') in ('panic', 'wake_panic')), gated=any(isinstance(x, (list, tuple)) and x[0] == 'gate' for x in body.get('acts', [])))
                     cl = 'scen:%s:%d' % (name, oi)
                     c = fresh(); r = fresh(); x = fresh(); y = fresh()
-                    tok = 40 + opid
-                    T.append(s.job_closure(name, oi, cl, q, opid, body, returns=(kind != 'desync'), tok=tok))
-                    emit(['_%d = {closure@%s} { }' % (c, cl)],
-                         '_%d = __op_inv(const %d_usize) -> [return: bb%d, unwind continue]' % (y, opid, len(blocks) + 1))
+                    outer = opid; tok = 40 + outer
+                    s.ops[outer]['tok'] = tok
+                    opid += 1
+                    # operations scheduled from inside the job body: ('desync'|'sync', queue) acts get operations (and closures) of their own
+                    nest = {}
+                    for ai, a_ in enumerate(body.get('acts', [])):
+                        if isinstance(a_, (list, tuple)) and a_[0] in ('desync', 'sync'):
+                            s.ops[opid] = dict(thread=name, tid=None, obj=a_[1], kind=a_[0], idx=0, opid=opid, tindex=100 + opid, probe=False, must_panic=False, panics=False, gated=False, tok=40 + opid, nested_in=outer)
+                            ncl = '%s:n%d' % (cl, ai)
+                            T.append(s.job_closure('%s::nested%d_%d' % (name, oi, ai), 0, ncl, a_[1], opid, {}, returns=(a_[0] == 'sync'), tok=40 + opid))
+                            nest[ai] = (opid, ncl)
+                            opid += 1
+                    T.append(s.job_closure(name, oi, cl, q, outer, body, returns=(kind != 'desync'), tok=tok, nest=nest, nq=nq))
+                    caps = ', '.join('q%d: copy _%d' % (k_, 1 + k_) for k_ in range(nq)) if nest else ''
+                    emit(['_%d = {closure@%s} { %s }' % (c, cl, caps)],
+                         '_%d = __op_inv(const %d_usize) -> [return: bb%d, unwind continue]' % (y, outer, len(blocks) + 1))
                     fnname = {'sync': 'desync_scheduler::sync::<u32, {closure@%s}>' % cl, 'desync': 'desync_scheduler::desync::<{closure@%s}>' % cl,
                               'try_sync': 'desync_scheduler::try_sync::<u32, {closure@%s}>' % cl}[kind]
                     emit([], '_%d = %s(copy _%d, move _%d) -> [return: bb%d, unwind continue]' % (r, fnname, 1 + q, c, len(blocks) + 1))
-                    emit([], '_%d = __op_done(const %d_usize, move _%d) -> [return: bb%d, unwind continue]' % (x, opid, r, len(blocks) + 1))
-                    s.ops[opid]['tok'] = tok
-                    opid += 1
+                    emit([], '_%d = __op_done(const %d_usize, move _%d) -> [return: bb%d, unwind continue]' % (x, outer, r, len(blocks) + 1))
                 elif kind == 'open_gate':
                     # open the gate, then wake whatever waker the gated future registered (None if nobody waits yet)
                     w_ = fresh(); d_ = fresh(); k_ = fresh(); u_ = fresh()
@@ -414,7 +430,7 @@ class World(object):
                     q = op[1]; body = op[2] if len(op) > 2 else {}
                     fk = body.get('fut', 'ready')
                     s.ops[opid] = dict(thread=name, tid=None, obj=q, kind=kind, idx=oi, opid=opid, tindex=ti, probe=False, panics=fk in ('panic', 'wake_panic'),
-                                       must_panic=bool(body.get('must_panic')), gated=isinstance(fk, tuple), var=body.get('as', 'f%d' % opid), tok=40 + opid)
+                                       must_panic=bool(body.get('must_panic')), gated=isinstance(fk, (list, tuple)), var=body.get('as', 'f%d' % opid), tok=40 + opid)
                     cl = 'scen:%s:%d' % (name, oi)
                     T.append(s.future_closure(name, oi, cl, q, opid, fk, 40 + opid))
                     c = fresh(); y = fresh(); fv = fresh(); x = fresh()
@@ -482,7 +498,7 @@ class World(object):
                     obj = 10 + s.canaries.get(op[1], 0)
                     base = kind[2:]
                     fk = body.get('fut', 'ready')
-                    s.ops[opid] = dict(thread=name, tid=None, obj=obj, kind=base, idx=oi, opid=opid, tindex=ti, probe=False, gated=isinstance(fk, tuple) and base == 'future_desync',
+                    s.ops[opid] = dict(thread=name, tid=None, obj=obj, kind=base, idx=oi, opid=opid, tindex=ti, probe=False, gated=isinstance(fk, (list, tuple)) and base == 'future_desync',
                                        tok=40 + opid, var=body.get('as', 'f%d' % opid), wrapper=True)
                     cl = 'scen:%s:%d' % (name, oi)
                     c = fresh(); y = fresh(); r = fresh(); x = fresh(); dr = fresh()
@@ -584,6 +600,15 @@ class World(object):
                     emit([], '_%d = __drop_begin(const %d_usize) -> [return: bb%d, unwind continue]' % (fresh(), s.canaries[op[1]], len(blocks) + 1))
                     emit([], '_%d = mem::drop::<Desync<Canary>>(move _%d) -> [return: bb%d, unwind continue]' % (fresh(), dv, len(blocks) + 1))
                     emit([], '_%d = __drop_end(const %d_usize) -> [return: bb%d, unwind continue]' % (fresh(), s.canaries[op[1]], len(blocks) + 1))
+                elif kind == 'set_max':
+                    sr = fresh()
+                    emit([], '_%d = desync_scheduler::scheduler::<\'_>() -> [return: bb%d, unwind continue]' % (sr, len(blocks) + 1))
+                    emit([], '_%d = desync_scheduler::Scheduler::set_max_threads(copy _%d, const %d_usize) -> [return: bb%d, unwind continue]' % (fresh(), sr, op[1], len(blocks) + 1))
+                elif kind == 'despawn':
+                    sr = fresh()
+                    emit([], '_%d = desync_scheduler::scheduler::<\'_>() -> [return: bb%d, unwind continue]' % (sr, len(blocks) + 1))
+                    emit([], '_%d = desync_scheduler::Scheduler::despawn_threads_if_overloaded(copy _%d) -> [return: bb%d, unwind continue]' % (fresh(), sr, len(blocks) + 1))
+                    emit([], '_%d = __despawned() -> [return: bb%d, unwind continue]' % (fresh(), len(blocks) + 1))
                 elif kind == 'd_give':
                     dv = dvars[op[1]]
                     emit([], '_%d = __give(const %d_usize, move _%d) -> [return: bb%d, unwind continue]' % (fresh(), op[2], dv, len(blocks) + 1))
@@ -719,7 +744,7 @@ fn scen::DropFlag::drop(_1: &mut DropFlag) -> () {
             op['tid'] = [t.tid for t in m.threads if t.name == op['thread']][0]
     def future_closure(s, tname, oi, cl, obj, opid, fk, tok):
         """closure passed to future_desync/future_sync: enters the object and returns the user future (ready, or pending on a gate)"""
-        gate = fk[1] if isinstance(fk, tuple) else {'panic': 97, 'wake_panic': 98, 'yield': 96}.get(fk, 99)
+        gate = fk[1] if isinstance(fk, (list, tuple)) else {'panic': 97, 'wake_panic': 98, 'yield': 96}.get(fk, 99)
         return '''fn scen::thread_%s::{closure#%d}(_1: {closure@%s}) -> GateFut {
     bb0: {
         _2 = __enter(const %d_usize, const %d_usize) -> [return: bb1, unwind continue];
@@ -755,7 +780,7 @@ fn scen::DropFlag::drop(_1: &mut DropFlag) -> () {
 ''' % (tname, oi, cl, 'u32' if returns else '()', obj, opid, opid, opid, obj, opid, ('        _0 = const %d_u32;\n' % tok) if returns else '')
     def pipe_process_closure(s, tname, oi, cl, obj, base, n, pk):
         """FnMut(&mut Canary, usize) -> BoxFuture<()>: enters the object for item k (operation base+k) and returns a future that leaves it when done"""
-        gate = pk[1] if isinstance(pk, tuple) else 99
+        gate = pk[1] if isinstance(pk, (list, tuple)) else 99
         L = ['fn scen::thread_%s::{closure#%d}(_1: &mut {closure@%s}, _2: &mut Canary, _3: usize) -> Pin<Box<GateFut>> {' % (tname, oi, cl)]
         L += ['    bb0: {', '        switchInt(copy _3) -> [%s, otherwise: bb1];' % ', '.join('%d: bb%d' % (k, 4 + 3 * k) for k in range(n)), '    }',
               '    bb1: {', '        unreachable;', '    }',
@@ -770,7 +795,7 @@ fn scen::DropFlag::drop(_1: &mut DropFlag) -> () {
         L += ['}', '']
         return '\n'.join(L)
     def d_future_closure(s, tname, oi, cl, obj, opid, fk, tok):
-        gate = fk[1] if isinstance(fk, tuple) else 99
+        gate = fk[1] if isinstance(fk, (list, tuple)) else 99
         return '''fn scen::thread_%s::{closure#%d}(_1: {closure@%s}, _2: &mut Canary) -> Pin<Box<GateFut>> {
     bb0: {
         _3 = __enter(const %d_usize, const %d_usize) -> [return: bb1, unwind continue];
@@ -790,11 +815,23 @@ fn scen::DropFlag::drop(_1: &mut DropFlag) -> () {
     }
 }
 ''' % (tname, oi, cl, obj, opid, opid, gate, opid, obj, tok)
-    def job_closure(s, tname, oi, cl, obj, opid, body, returns, tok):
+    def job_closure(s, tname, oi, cl, obj, opid, body, returns, tok, nest=None, nq=0):
         acts = body.get('acts', ['enter', 'yield', 'exit'])
         L = ['fn scen::thread_%s::{closure#%d}(_1: {closure@%s}) -> %s {' % (tname, oi, cl, 'u32' if returns else '()')]
-        b = 0
-        for a in acts:
+        b = 0; loc = [40]
+        def fresh():
+            loc[0] += 1; return loc[0]
+        for ai, a in enumerate(acts):
+            if isinstance(a, (list, tuple)) and a[0] in ('desync', 'sync'):
+                # schedule an operation on queue a[1] from inside this job
+                nop, ncl = nest[ai]
+                c_ = fresh(); q_ = fresh(); r_ = fresh()
+                fn = ('desync_scheduler::desync::<{closure@%s}>' if a[0] == 'desync' else 'desync_scheduler::sync::<u32, {closure@%s}>') % ncl
+                L += ['    bb%d: {' % b, '        _%d = {closure@%s} { };' % (c_, ncl), '        _%d = __op_inv(const %d_usize) -> [return: bb%d, unwind continue];' % (fresh(), nop, b + 1), '    }',
+                      '    bb%d: {' % (b + 1), '        _%d = copy (_1.%d: &Arc<JobQueue>);' % (q_, a[1]), '        _%d = %s(copy _%d, move _%d) -> [return: bb%d, unwind continue];' % (r_, fn, q_, c_, b + 2), '    }',
+                      '    bb%d: {' % (b + 2), '        _%d = __op_done(const %d_usize, move _%d) -> [return: bb%d, unwind continue];' % (fresh(), nop, r_, b + 3), '    }']
+                b += 3
+                continue
             if a == 'enter': call = '__enter(const %d_usize, const %d_usize)' % (obj, opid)
             elif a == 'exit': call = '__exit(const %d_usize, const %d_usize)' % (obj, opid)
             elif a == 'yield': call = '__yield()'
@@ -806,7 +843,7 @@ fn scen::DropFlag::drop(_1: &mut DropFlag) -> () {
         L += ['    bb%d: {' % b] + (['        _0 = const %d_u32;' % tok] if returns else []) + ['        return;', '    }', '}', '']
         return '\n'.join(L)
     # ------------------------------------------------------------------ driving
-    def run(s, R, B, order=None, verbose=False, fixed=None):
+    def run(s, R, B, order=None, verbose=False, fixed=None, seq=None):
         m = s.m
         ths = [t for t in m.threads if t.role != 'init' and not t.final]
         finals = [t for t in m.threads if t.final]
@@ -814,8 +851,15 @@ fn scen::DropFlag::drop(_1: &mut DropFlag) -> () {
         s.actvars = []; s.side = []
         K = 1
         t0 = time.time()
-        for r in range(R):
-            for th in ths:
+        # slot sequence: R passes over the thread order, or an explicit sequence of thread names (`seq`, a targeted context bound:
+        # every schedule whose sequence of thread segments embeds into it is covered, each slot taking 0..B visible steps)
+        if seq is not None:
+            byname = {t.name: t for t in ths}
+            slots = [(i, byname[n]) for i, n in enumerate(seq)]
+        else:
+            slots = [(r, th) for r in range(R) for th in ths]
+        if True:
+            for r, th in slots:
                 prev = TRUE
                 for j in range(B):
                     if not th.live(): break
@@ -873,6 +917,7 @@ fn scen::DropFlag::drop(_1: &mut DropFlag) -> () {
         norun = And(*[Not(s.runnable[t.tid]) for t in callers + pools])
         allfin = And(*[s.fin[t.tid] for t in callers])
         s.deadlock = And(norun, Not(allfin))
+        s.allfin = allfin
         s.norun = norun
         s.quiescent = And(allfin, *[Or(Not(t.started), s.idle[t.tid], s.fin[t.tid]) for t in pools])
         s.anypanic = Or(*[g for _, _, g in m.panics]) if m.panics else FALSE
